@@ -2,7 +2,7 @@
    Definitions only.  One transition per hooked shared access of the Rust code as it is in /repo:
 
      push     Q0 head.swap (node allocation folded in) / Q1 node->prev = prev (plain write)
-              / Q2 prev->next.store(node) / Q3 read of the consumer position `tail` (-> is_head)
+              / Q2 read of the consumer position `tail` (-> is_head) / Q3 prev->next.store(node)
      pop      KP0 head.load [+ clear the stub's link bit] / KP1 tail->next.load (spin) / KP2 tail.write
               (the commit: next->prev = null, tail = next, value taken, stub's list reference released)
      pop_if   KP0 head.load / KP1 tail->next.load (spin) + predicate / KP2 tail.write
@@ -23,7 +23,7 @@ Record node := {
   nprev : option nat; nnext : option nat; nval : bool; nlink : bool; refs : nat;
   freed : bool;      (* Box::from_raw was executed on it *)
   (* ghost *)
-  stage : nat;       (* 2 = swapped, 1 = prev written, 0 = linked (prev.next stored) *)
+  stage : nat;       (* 2 = swapped, 1 = prev written (and consumer position read), 0 = linked (prev.next stored) *)
   inch : bool;       (* still in the chain: an unconsumed entry, or the current stub *)
   gpred : nat;       (* current predecessor in the chain *)
   cons : nat;        (* how many times its value was handed out *)
@@ -113,18 +113,19 @@ Definition step (s : st) (a : action) : option st :=
       | Q1 => (* node->prev = prev *)
           Some (s_P (upd (P s) p {| qp := Q2; qn := qn x; qprev := qprev x; qempty := qempty x; qclk := qclk x; qhead := qhead x |})
                (modn (qn x) (fun d => w_stage 1 (w_prev (Some (qprev x)) d)) (deref [qn x] s)))
-      | Q2 => (* prev->next.store(node) *)
-          Some (s_P (upd (P s) p {| qp := Q3; qn := qn x; qprev := qprev x; qempty := qempty x; qclk := qclk x; qhead := qhead x |})
-               (modn (qn x) (w_stage 0) (modn (qprev x) (w_next (Some (qn x))) (deref [qprev x] s))))
-      | Q3 => (* tail.read: is_head := ptr::eq(tail, prev); the handle is returned *)
+      | Q2 => (* tail.read: is_head := ptr::eq(tail, prev), taken BEFORE the node is linked (fix of the stale-prev
+                 comparison: prev is still a chain member here, so it cannot have been freed and re-allocated) *)
           let nd := nodes s (qn x) in
           let flag := Nat.eqb (tail s) (qprev x) in
           let fresh0 := Nat.eqb (cons nd) 0 in
           let claimA := implb (qempty x && fresh0) flag in
           let claimC := implb flag (fresh0 && inch nd && Nat.eqb (gpred nd) (tail s)) in
           let claimD := implb (Nat.eqb (qclk x) (kclock s)) (Bool.eqb flag (qempty x)) in
-          Some (s_P (upd (P s) p {| qp := QIdle; qn := qn x; qprev := qprev x; qempty := qempty x; qclk := qclk x; qhead := flag |})
-               (modn (qn x) (w_ret true) (s_bhead (negb (claimA && claimC && claimD)) s)))
+          Some (s_P (upd (P s) p {| qp := Q3; qn := qn x; qprev := qprev x; qempty := qempty x; qclk := qclk x; qhead := flag |})
+               (s_bhead (negb (claimA && claimC && claimD)) (deref [qprev x] s)))
+      | Q3 => (* prev->next.store(node); the handle is returned *)
+          Some (s_P (upd (P s) p {| qp := QIdle; qn := qn x; qprev := qprev x; qempty := qempty x; qclk := qclk x; qhead := qhead x |})
+               (modn (qn x) (fun d => w_ret true (w_stage 0 d)) (modn (qprev x) (w_next (Some (qn x))) (deref [qprev x] s))))
       end
   | Pop => match kp s with KIdle => Some (s_k (KP0 false) 0 0 s) | _ => None end
   | PopIf => match kp s with KIdle => Some (s_k (KP0 true) 0 0 s) | _ => None end
@@ -197,6 +198,25 @@ Definition step (s : st) (a : action) : option st :=
                          (modn n (fun d => w_drop (w_take true (w_unchain d))) s1)))))
           end
       end
+  end.
+
+(* push as it was before the fix of the head report: prev->next.store at Q2, the consumer position read last
+   (kept for the refutation witness in ListV1Aba.v) *)
+Definition step_old (s : st) (a : action) : option st :=
+  match a with
+  | PStep p =>
+      let x := P s p in
+      match qp x with
+      | Q2 =>
+          Some (s_P (upd (P s) p {| qp := Q3; qn := qn x; qprev := qprev x; qempty := qempty x; qclk := qclk x; qhead := qhead x |})
+               (modn (qn x) (w_stage 0) (modn (qprev x) (w_next (Some (qn x))) (deref [qprev x] s))))
+      | Q3 =>
+          let flag := Nat.eqb (tail s) (qprev x) in
+          Some (s_P (upd (P s) p {| qp := QIdle; qn := qn x; qprev := qprev x; qempty := qempty x; qclk := qclk x; qhead := flag |})
+               (modn (qn x) (w_ret true) s))
+      | _ => step s a
+      end
+  | _ => step s a
   end.
 
 (* Queue::new: the stub has refs = 1 (no handle), link bit clear *)
